@@ -445,6 +445,23 @@ func (gr *Graph) Install(reg *regmodel.Reg, repo, tag string) {
 	}
 }
 
+// InstallPlain stores only the image itself (root closure and tag): what an
+// earlier copy without the referrers / digest-tags options would have left.
+func (gr *Graph) InstallPlain(reg *regmodel.Reg, repo, tag string) {
+	rp := reg.Repo(repo)
+	Walk(gr.Root, func(n *Node) {
+		rp.Manifests[n.Digest] = &regmodel.Manifest{MediaType: n.MediaType, Raw: n.Raw}
+		for _, b := range append(append([]*Blob{}, n.Blobs...), n.BlobKids...) {
+			if b.Hosted && !b.External {
+				rp.Blobs[b.Desc.Digest] = b.Data
+			}
+		}
+	})
+	if tag != "" {
+		rp.Tags[tag] = gr.Root.Digest
+	}
+}
+
 // Describe is a compact human-readable form for evidence samples.
 func (gr *Graph) Describe() map[string]any {
 	var desc func(n *Node) any
